@@ -80,10 +80,13 @@ fn symbol_to_document_symbol(symbol_map: &SymbolMap, symbol: Symbol) -> Option<D
             })
         }
         Symbol::Defset(defset) => {
+            // a def that joins the defset from an included file (`defset ... = { include "x.td" }`)
+            // lives in that file: its range means nothing in this document's outline
             let def_list = defset
                 .def_list
                 .iter()
                 .map(|id| symbol_map.symbol((*id).into()))
+                .filter(|symbol| symbol.define_loc().file == defset.define_loc.file)
                 .filter_map(|symbol| symbol_to_document_symbol(symbol_map, symbol));
 
             Some(DocumentSymbol {
